@@ -367,7 +367,7 @@ def main(argv=None):
     prop = args.prop
     tier = args.tier if args.tier in ('quick', 'thorough') else 'quick'
     core.XCHECK['every'] = int(os.environ.get(
-        'VERIF_XCHECK', '100' if tier == 'quick' else '40'))
+        'VERIF_XCHECK', '200' if tier == 'quick' else '50'))
     seed = int(os.environ.get('VERIF_SEED', '0') or 0)
     modname = f"harness.{prop}"
     # import in the parent so that forked children share loaded modules
